@@ -13,6 +13,7 @@ import os
 from dataclasses import dataclass, field
 from pathlib import Path
 
+from .aliasfields import inline_buffer_aliases
 from .threadflags import thread_flag_loops
 
 PKG = "pyrtcm"
@@ -103,6 +104,7 @@ class Repo:
                 raise AnalysisError(f"{p}: does not parse: {err}") from err
             name = p.stem
             _inline_handler_tuples(tree)
+            inline_buffer_aliases(tree)  # `buf = self._buffer; buf += data` (a bytearray field used through a local): the field itself
             if os.environ.get("VERIF_NO_THREADING") != "1":
                 thread_flag_loops(tree)
             self.modules[name] = ModInfo(name, p, f"src/{PKG}/{p.name}", src, tree)
